@@ -208,7 +208,11 @@ func (c10) Run(c Case, env *Env) Result {
 			}
 			check(t, pos, j)
 		}
-		res.Sample(map[string]interface{}{"kind": "uniform random instants years 1..9999", "seed": c.Seed, "count": c.Count})
+		{
+			t := time.Unix(minSec+rand.New(rand.NewSource(c.Seed)).Int63n(maxSec-minSec), 123e6)
+			o := roundTrip(t)
+			res.Sample(map[string]interface{}{"kind": "uniform random instants years 1..9999", "seed": c.Seed, "count": c.Count, "example": map[string]interface{}{"instant": t.UTC().Format(time.RFC3339Nano), "wire": hexClip(o.Wire), "decoded": fmt.Sprint(o.Dec)}})
+		}
 	}
 	return res
 }
